@@ -13,6 +13,7 @@ import xonsh.lib.lazyasd as xl
 import xonsh.lib.lazyimps as xli
 import xonsh.platform as xp
 import xonsh.tools as xt
+from xonsh._verif import sched_point
 from xonsh.built_ins import XSH
 from xonsh.procs.jobs import proc_untraced_waitpid
 from xonsh.procs.readers import (
@@ -178,6 +179,7 @@ class PopenThread(threading.Thread):
         # loop over reads while process is running.
         i = j = cnt = 1
         while proc.poll() is None:
+            sched_point("posix.PopenThread.run.loop")
             info = proc_untraced_waitpid(proc, hang=False)
             if getattr(proc, "suspended", False):
                 self.suspended = True
@@ -216,6 +218,7 @@ class PopenThread(threading.Thread):
         # orig_stdout & orig_stderr are need by posix and Windows.
         # Also, order seems to matter here,
         # with orig_* needed to be closed before cap*
+        sched_point("posix.PopenThread.run.before_close")
         safe_fdclose(self.orig_stdout)
         safe_fdclose(self.orig_stderr)
         # Close pipe channel write ends (the wrappers above have closefd=False,
@@ -226,6 +229,7 @@ class PopenThread(threading.Thread):
             safe_fdclose(capout)
             safe_fdclose(caperr)
         # read in the remaining data in a blocking fashion.
+        sched_point("posix.PopenThread.run.before_drain")
         while (procout is not None and not procout.is_fully_read()) or (
             procerr is not None and not procerr.is_fully_read()
         ):
